@@ -68,6 +68,10 @@ def nullable_sources(files, info):
         f = synth.field(rec, s.split(":")[-1])
         if not s.startswith("fac") and nullable(rec, f, flags):
             out.append((names["led"], off, w, s))
+            if synth.base_kind(f) == "A_complex":
+                # the two halves of a complex column are separate numeric fields of the format: each may be blank alone
+                out.append((names["led"], off, w // 2, s + "#real-half"))
+                out.append((names["led"], off + w // 2, w // 2, s + "#imaginary-half"))
     refdec.volume(files[names["vol"]])
     for s, (off, w, rec) in sorted(refdec.ABS.items()):
         f = synth.field(rec, s.split(":")[-1])
